@@ -18,7 +18,7 @@ from engine import Stage, Check, StageResult
 
 PID = "C03"
 REMOVING = {"delete", "cut_before", "cut_after", "drop_prefix", "keys_remove", "unknown_suite", "shorten", "foreign"}     # only remove information / add foreign traffic
-POSITION_FAULTS = ["delete", "cut_before", "cut_after", "drop_prefix", "flip", "overwrite", "shorten"]
+POSITION_FAULTS = ["delete", "cut_before", "cut_after", "drop_prefix", "flip", "overwrite", "shorten", "header"]
 
 
 def flow_seq(o, ep, proto):
@@ -66,6 +66,15 @@ def apply_fault(b, fault, rnd):
                 off = x % len(data)
                 n = 1 + (x // 7) % 24
                 data[off:off + n] = rnd.randbytes(min(n, len(data) - off))
+            elif kind == "header":
+                # overwrite that hits a record / packet header with boundary values: the first bytes of the payload become a TLS record
+                # header (every content type, also unknown ones) with length 0, 1 or 0xffff - or, for UDP, a long / short QUIC header stub
+                hdrs = [bytes([t, 3, v, hi, lo]) for t in (0x14, 0x15, 0x16, 0x17, 0x18, 0x00, 0xFF) for v in (1, 3) for hi, lo in ((0, 0), (0, 1), (0xFF, 0xFF))]
+                h = hdrs[x % len(hdrs)]
+                if (x >> 8) & 1:
+                    data = bytearray(h)                     # ... and nothing else in the segment
+                else:
+                    data[:5] = h
             elif kind == "shorten":
                 data = data[:x % len(data)]
                 if not data:
